@@ -18,7 +18,8 @@ import (
 // disagreement is a fault of the machinery (exit 2), never a VIOLATION.
 type CaseReal struct {
 	W       World  `json:"world"`
-	DevFull bool   `json:"dev_full"` // stdout is /dev/full  <->  sink failing from offset 0
+	DevFull bool   `json:"dev_full"`    // stdout is /dev/full  <->  sink failing from offset 0 with ENOSPC
+	Closed  bool   `json:"closed_pipe"` // stdout is a pipe nobody reads  <->  sink failing from offset 0 with EPIPE
 	Note    string `json:"note"`
 }
 
@@ -28,7 +29,7 @@ func genReal(thorough bool) func(t *rapid.T) Case {
 	names := shapeNames(func(s Shape) bool { return s.Name != "gen man" && s.Name != "gen markdown" })
 	return func(t *rapid.T) Case {
 		c := &CaseReal{}
-		kind := rapid.SampledFrom([]string{"plain", "plain", "devfull", "dir", "longline", "missing", "config"}).Draw(t, "kind")
+		kind := rapid.SampledFrom([]string{"plain", "plain", "devfull", "closedpipe", "dir", "longline", "missing", "config"}).Draw(t, "kind")
 		c.Note = kind
 		if kind == "config" {
 			k := genC16(thorough)(t).(*CaseC16)
@@ -54,6 +55,9 @@ func genReal(thorough bool) func(t *rapid.T) Case {
 		case "devfull":
 			c.DevFull = true
 			c.W.Sink = SinkPlan{FailAt: 0, Kind: "ENOSPC"}
+		case "closedpipe":
+			c.Closed = true
+			c.W.Sink = SinkPlan{FailAt: 0, Kind: "EPIPE"}
 		case "dir":
 			c.W.Files[fi].Kind = "dir"
 		case "missing":
@@ -122,12 +126,19 @@ func (c *CaseReal) Eval(ob *Obs) []Finding {
 		must(err)
 		defer f.Close()
 		cmd.Stdout = f
+	} else if c.Closed {
+		pr, pw, err := os.Pipe()
+		must(err)
+		pr.Close() // nobody will ever read: the first write gets EPIPE / SIGPIPE
+		defer pw.Close()
+		cmd.Stdout = pw
 	} else {
 		cmd.Stdout = &stdout
 	}
 	runErr := cmd.Run()
 	realFailed := runErr != nil
-	if ee, ok := runErr.(*exec.ExitError); runErr != nil && (!ok || ee.ExitCode() < 0) {
+	if ee, ok := runErr.(*exec.ExitError); runErr != nil && (!ok || (ee.ExitCode() < 0 && !c.Closed)) {
+		// (with a closed pipe the process is ended by SIGPIPE, which is a non-zero status as far as the property goes)
 		panic(harnessFault{"cannot run the real binary: " + runErr.Error()})
 	}
 	ob.count("real_binary_runs", 1)
@@ -145,7 +156,7 @@ func (c *CaseReal) Eval(ob *Obs) []Finding {
 	if sim.Failed != realFailed {
 		out = append(out, Finding{"REAL exit-status-differs kind=" + c.Note, fmt.Sprintf("sim failed=%v (%s); real failed=%v stderr=%q argv=%q", sim.Failed, sim.Err, realFailed, short(stderr.String(), 300), c.W.Argv)})
 	}
-	if !c.DevFull && sim.Stdout != realOut {
+	if !c.DevFull && !c.Closed && sim.Stdout != realOut {
 		out = append(out, Finding{"REAL stdout-differs kind=" + c.Note, fmt.Sprintf("%s argv=%q", firstDiff(sim.Stdout, realOut), c.W.Argv)})
 	}
 	return out
